@@ -44,8 +44,13 @@ NONTRIVIAL_OPS = 1
 
 
 def tasks(tier, master):
-    return [{"kind": "run", "i": i, "seed": core.derive_seed(master, PROPERTY, tier, i), "tier": tier}
-            for i in range(N_RUNS[tier])]
+    specs = [{"kind": "run", "i": i, "seed": core.derive_seed(master, PROPERTY, tier, i), "tier": tier}
+             for i in range(N_RUNS[tier])]
+    # records longer than GET_EYE's default nslots=4096 (truncation path): a few in every tier
+    for j, nsl in enumerate([4300, 5000, 6001] if tier == "quick" else [4300, 5000, 6001, 4097, 8191, 4500, 7000, 5555]):
+        specs.append({"kind": "trunc", "i": j, "nslots": nsl, "tier": tier,
+                      "seed": core.derive_seed(master, PROPERTY, tier + "/trunc", j)})
+    return specs
 
 
 def generate(seed, tier):
@@ -305,5 +310,12 @@ class Bench:
 
 def execute(spec, rec, known):
     b = Bench(rec)
+    if spec.get("kind") == "trunc":
+        _, ops = generate(spec["seed"], "quick")
+        case = dict([o for o in ops if o["op"] == "case"][0], nslots=spec["nslots"])
+        case["seeds"] = case["seeds"][:1]
+        if case["pattern"] == "blocks":
+            case["pattern"] = "random"
+        spec = dict(spec, ops=[case])
     core.run_ops(b, spec["ops"], rec, "C17/finite")
     rec.sim_s = b.clock.covered
